@@ -1005,3 +1005,12 @@ func sliceIsOverArray(sl *ssa.Slice, arr types.Type) bool {
 	}
 	return types.Identical(pt.Elem(), arr)
 }
+
+func isBoolType(t types.Type) bool {
+	b, ok := t.Underlying().(*types.Basic)
+	return ok && b.Kind() == types.Bool
+}
+
+func isErrorType(t types.Type) bool {
+	return types.Identical(t, types.Universe.Lookup("error").Type())
+}
